@@ -64,7 +64,7 @@ CHECKS = {
                 text="Every generated map/table case (lookups, inserts, removals, entries, shared iterators with every continuation, iter_hash) runs on both back-ends; both must satisfy the model at every step and produce identical per-step digests of (len, sorted contents). The scanner primitives are compared with their bytewise definitions on all 2^16 values of every adjacent byte pair in several background groups plus random groups.",
                 ref="9.18"),
     "C20": dict(cat="exploration", tech="PBT over (entry stream with duplicates, claimed size hint, error position, format) with round-trip, last-wins model and allocation ledger",
-                text="serde_json round trips and serde value deserializers over lying iterators (hints: none, exact, understated, overstated and satisfiable such as 5000 .. 2^20, huge incl. 2^63 +- 1 and usize::MAX) for maps and sets of tracked elements and of (), u8, u64, bool, String elements: equality after round trip, last value wins, errors returned with every built element dropped once and nothing left allocated, reservation before the first read bounded by with_capacity(4096), deserialize_in_place clears first.",
+                text="serde_json round trips and serde value deserializers over lying iterators (hints: none, exact, understated, overstated and satisfiable such as 5000 .. 100 000, huge incl. 2^63 +- 1 and usize::MAX) for maps and sets of tracked elements and of (), u8, u64, bool, String elements: equality after round trip, last value wins, errors returned with every built element dropped once and nothing left allocated, reservation before the first read bounded by with_capacity(4096), deserialize_in_place clears first.",
                 ref="9.20"),
     "C15": dict(cat="exploration", tech="PBT over (state, N, key tuples) with pointer-distinctness and write-through oracle",
                 text="get_many_mut / get_many_key_value_mut (HashMap) and get_many_mut (HashTable, closures that may match several entries) for N in 0..=4, 9, 12, with the keys themselves or unsized equivalent keys that all start at one address, and on the element-layout family (zero-sized, over-aligned) with N = 1, 2: panic iff two requests name one entry, distinct addresses, right targets, sentinels land in the model's entries.",
